@@ -140,6 +140,19 @@ add(
     "3/C15",
 )
 
+add(
+    "C04",
+    "The real KMatrix / InitialConcentration / decay megacomplex code and the decay kernel's Python source run on symbolic "
+    "rate constants, initial concentrations and times; the oracle is the ODE itself (K built by the harness from the "
+    "declared entries): K a_l = -rate_l a_l for every component, sum_l a_l = documented normalised j, matrix[t, s] = "
+    "sum_l exp(-rate_l t) A[l, s], labels in initial-concentration order - for chains, parallel, branched, reversible and "
+    "side-loss schemes, combined K-matrices, every declaration order, both is_sequential branches, and the sequential / "
+    "parallel megacomplexes.",
+    COMMON_NOTE + "scipy.linalg.eig/solve are functional contract stubs (equations chosen by the flags the code passes); "
+    "obligations are discharged as certificates goal = multiplier x contract equation by normal form, else by z3 NRA.",
+    "3/C04",
+)
+
 ALL = [f"C{i:02d}" for i in range(1, 21)]
 
 
